@@ -154,7 +154,7 @@ func Knobs(initialDelay time.Duration) {
 	queue.DefaultDelayOnRepeat = time.Millisecond
 	queue.DefaultInitialDelayOnFailedTask = initialDelay
 	kem.DefaultSyncTime = 50 * time.Microsecond
-	shell_operator.WaitQueuesTimeout = 300 * time.Millisecond
+	shell_operator.WaitQueuesTimeout = 30 * time.Millisecond
 }
 
 // New builds the hooks directory and the operator. gated: queue workers are parked at their gates.
@@ -456,6 +456,69 @@ func (f *Fixture) KubeEvent(h, b string) error {
 	gvr := schema.GroupVersionResource{Group: "", Version: "v1", Resource: "configmaps"}
 	_, err := f.FC.Client.Dynamic().Resource(gvr).Namespace(NsOf(h, b)).Create(context.Background(), cm, metav1.CreateOptions{})
 	return err
+}
+
+// Buffered returns the number of Events the monitor of binding b of hook h holds back (-1: no monitor yet).
+func (f *Fixture) Buffered(h, b string) int {
+	hk := f.Op.HookManager.GetHook(h)
+	if hk == nil {
+		return -1
+	}
+	for _, kc := range hk.GetConfig().OnKubernetesEvents {
+		if kc.BindingName == b {
+			if !f.Op.KubeEventsManager.HasMonitor(kc.Monitor.Metadata.MonitorId) {
+				return -1
+			}
+			n, _ := kem.VerifBufferedEvents(f.Op.KubeEventsManager.GetMonitor(kc.Monitor.Metadata.MonitorId))
+			return n
+		}
+	}
+	return -1
+}
+
+// DrainToExit releases the worker of q until it exits (returns "") or enters a handler (returns the task id).
+func (f *Fixture) DrainToExit(q string, max time.Duration) (string, error) {
+	c := f.Q[q]
+	deadline := time.Now().Add(max)
+	for time.Now().Before(deadline) {
+		if !c.TryRelease(500 * time.Millisecond) {
+			if c.Q.GetStatus() == "stop" {
+				return "", nil
+			}
+			return "", fmt.Errorf("queue %s: worker neither parked nor stopped", q)
+		}
+		ev := c.Wait(2 * time.Second)
+		switch ev.Kind {
+		case "handler":
+			return ev.Task, nil
+		case "gate":
+			if ev.Gate == "q.exit" {
+				c.TryRelease(500 * time.Millisecond)
+				for k := 0; k < 2000 && c.Q.GetStatus() != "stop"; k++ {
+					time.Sleep(100 * time.Microsecond)
+				}
+				return "", nil
+			}
+		case "timeout":
+			if c.Q.GetStatus() == "stop" {
+				return "", nil
+			}
+		}
+	}
+	return "", fmt.Errorf("queue %s: worker did not exit within %s", q, max)
+}
+
+// WaitHandler waits for the handler of q to return (no gate walking).
+func (f *Fixture) WaitHandlerReturn(q string, max time.Duration) (string, error) {
+	ev := f.Q[q].Wait(max)
+	if ev.Kind != "handled" {
+		return "", fmt.Errorf("queue %s: handler did not return (%v)", q, ev)
+	}
+	ev2 := f.Q[q].Wait(3 * time.Second)
+	if ev2.Kind != "gate" || ev2.Gate != "q.handled" {
+		return ev.Status, fmt.Errorf("queue %s: expected gate q.handled, got %v", q, ev2)
+	}
+	return ev.Status, nil
 }
 
 // WaitWatches waits until the informers of every kubernetes binding of hook h watch the fake cluster (see fakewatch).
